@@ -303,12 +303,30 @@ def check_accumulators(prog, rep, K, methods, rule="R6-accumulator"):
             rep.ok(rule, construct, "no reduction over taxa/variants and no product in the int8 storage dtype (%d reduction(s) of int8 data examined)" % sc.checked)
 
 
+def check_ploidy_carried(prog, rep, K):
+    """R7-ploidy: every structural operation of the genotype classes hands the ploidy to the matrix it builds (field-flow analysis shared with C03-R1)"""
+    from rules import c03
+    from sa.report import RuleProxy
+    ai = c03.AxisInfo(prog, K)
+    proxy = RuleProxy(rep, {"R1-fields": "R7-ploidy"}, keep=lambda d: "ploidy" in d, forward_ok=False)
+    n = 0
+    for A in ai.axes:
+        for op in c03.NONMUT:
+            before = len(rep.violations)
+            s = c03.check_op(prog, proxy, K, ai, A, op, "quick")
+            if s is not None:
+                n += 1
+                if len(rep.violations) == before:
+                    rep.ok("R7-ploidy", "%s.%s_%s" % (K.qualname, op, A), "the matrix built by %s_%s receives the ploidy of its source (every statistic divides by it)" % (op, A))
+    return n
+
+
 def run(prog, rep, tier):
     rep.explanation = ("Spec congruence of every statistic with its definition through an algebraic normal form (both genotype classes), structural rule for the "
                        "genotype-class count, complement forms, a forward taint (reciprocal-multiply values reaching comparisons with 1) with function summaries, "
                        "and a dtype rule against accumulation in the int8 storage type.")
     rep.not_decided = ["dtype conversion corner cases of user-requested output dtypes", "exact floating-point results away from the 0/1 boundary"]
-    for r, n in (("R1-definitions", 14), ("R3-classes", 2), ("R4-complement", 2), ("R5-exact-at-one", 4), ("R6-accumulator", 16)):
+    for r, n in (("R1-definitions", 14), ("R3-classes", 2), ("R4-complement", 2), ("R5-exact-at-one", 4), ("R6-accumulator", 16), ("R7-ploidy", 10)):
         rep.floor(r, n)
     for mod, cname in (GM, PGM):
         K = prog.get_class(cname, mod)
@@ -316,4 +334,5 @@ def run(prog, rep, tier):
         check_gtcount(prog, rep, K)
         check_complement(prog, rep, K)
         check_accumulators(prog, rep, K, STATS)
+        check_ploidy_carried(prog, rep, K)
     check_exactness(prog, rep, tier, sink_filter=NOT_SELECTION)
